@@ -66,6 +66,11 @@ pub enum Kind {
     /// the color as the payload of a user enum (`style` 0 untagged, 1 internally tagged, 2 adjacently tagged)
     /// through JSON text (`via` 0), a `serde_json::Value` (1) or RON (2): serde's buffered `Content` replay
     Enum { style: u8, via: u8 },
+    /// several colors of the case's type in one document (`form`: vector, option, tuple, array, map, a user
+    /// struct with other colors and scalars in between, a stream of documents ...) through JSON text (`via` 0),
+    /// a `serde_json::Value` (1), RON (2) or JSON from a simulated reader (3); `second` and `third` are the
+    /// values of the other positions
+    Container { form: u8, via: u8, n: u8, second: Vec<u64>, third: Vec<u64>, read: IoPlan },
 }
 
 impl Kind {
@@ -83,6 +88,7 @@ impl Kind {
             Kind::Value => "json-value",
             Kind::Attrs { .. } => "helpers-as-attributes",
             Kind::Enum { .. } => "enum-payload",
+            Kind::Container { .. } => "container",
         }
     }
 }
@@ -400,7 +406,7 @@ impl World for C20 {
         }
         let c = self.cases[(index % self.cases.len() as u64) as usize];
         let faults = rng.chance(4, 10);
-        let kind_pick = rng.below(24);
+        let kind_pick = rng.below(28);
         let struct_like = c.shape == Shape::Struct;
         let has_alpha = c.wrapper != Wrapper::None;
         let (kind, raw) = match kind_pick {
@@ -484,6 +490,15 @@ impl World for C20 {
                 let via = rng.below(3) as u8;
                 let style = if via == 2 { 2 } else { rng.below(3) as u8 };
                 (Kind::Enum { style, via }, false)
+            }
+            24..=27 => {
+                let form = rng.below(cases::CONTAINER_FORMS.len() as u64) as u8;
+                // a stream of documents exists for JSON only
+                let via = if form == 10 { *rng.pick(&[0u8, 3]) } else { rng.below(4) as u8 };
+                let second: Vec<u64> = gen_vals(rng, c, false).iter().map(|v| v.to_bits()).collect();
+                let third: Vec<u64> = gen_vals(rng, c, false).iter().map(|v| v.to_bits()).collect();
+                let read = if via == 3 { gen_io(rng, false, 40 + c.nvals * 40) } else { IoPlan::clean() };
+                (Kind::Container { form, via, n: rng.below(4) as u8, second, third, read }, false)
             }
             _ => (Kind::Value, false),
         };
@@ -598,6 +613,27 @@ impl World for C20 {
                 }
                 if *via == 2 {
                     out.push(with(Kind::Enum { style: 2, via: 0 }));
+                }
+            }
+            Kind::Container { form, via, n, second, third, read } => {
+                let mk = |form: u8, via: u8, n: u8, read: IoPlan| with(Kind::Container { form, via, n, second: second.clone(), third: third.clone(), read });
+                if *via != 0 {
+                    out.push(mk(*form, 0, *n, IoPlan::clean()));
+                }
+                if *via == 3 && (read.chunks != vec![255] || read.eintr_every != 0) {
+                    out.push(mk(*form, 3, *n, IoPlan::clean()));
+                }
+                if (*form == 0 || *form == 10) && *n > 1 {
+                    out.push(mk(*form, *via, *n - 1, read.clone()));
+                }
+                for simpler in [9u8, 1, 3, 0] {
+                    if simpler < *form && !(*form == 10) {
+                        out.push(mk(simpler, *via, (*n).max(1), read.clone()));
+                    }
+                }
+                let simple: Vec<u64> = (0..second.len()).map(|j| if scalar_of(c, j).starts_with('u') { (j + 2) as f64 } else { 0.125 * (j + 1) as f64 }.to_bits()).collect();
+                if *second != simple || *third != simple {
+                    out.push(with(Kind::Container { form: *form, via: *via, n: *n, second: simple.clone(), third: simple, read: read.clone() }));
                 }
             }
             Kind::RonOptional { style, missing } => {
@@ -1689,6 +1725,89 @@ fn execute(c: &'static CaseDesc, inner: Option<&'static CaseDesc>, vals: &[f64],
                 Err(e) => {
                     ctx.checked();
                     ctx.fail("deserialize-failed", &key, format!("{}: {sname} enum payload through {vname}: {e}", c.name));
+                }
+            }
+        }
+        Kind::Container { form, via, n, second, third, read } => {
+            let fname = cases::CONTAINER_FORMS[(*form as usize).min(cases::CONTAINER_FORMS.len() - 1)];
+            let vname = ["json-text", "json-value", "ron", "json-reader"][(*via).min(3) as usize];
+            let key = format!("container:{fname}:{vname}:{}", c.name);
+            ctx.state(&(c.name, kname, *form, *via, *n));
+            let widen = |bits: &Vec<u64>| -> Vec<f64> {
+                let mut v: Vec<f64> = bits.iter().enumerate().map(|(j, b)| round_to_scalar(c, j, f64::from_bits(*b))).collect();
+                while v.len() < c.nvals {
+                    v.push(vals[v.len()]);
+                }
+                v
+            };
+            let (v2, v3) = (widen(second), widen(third));
+            let args = cases::ContainerArgs { vals: [vals, &v2, &v3], form: *form, via: *via, n: *n, read };
+            // JSON writes `Some(x)` as x: an option around a document that is itself `null` (a unit color) cannot be
+            // told from `None` — between serde and JSON, nothing palette decides
+            if *form == 1 && *via != 2 && (c.ops.json_string)(vals).map(|t| t == "null").unwrap_or(false) {
+                ctx.extra("option-around-a-null-document-not-judged", 1);
+                return;
+            }
+            ctx.step();
+            match (c.ops.container_round)(&args) {
+                Ok(cases::ContainerRound::Back { text, composed, outcomes, others_ok, io }) => {
+                    if let Some(st) = io {
+                        note_io(ctx, &st, true);
+                    }
+                    ctx.checked();
+                    if !others_ok {
+                        ctx.fail("round-trip:container", &key, format!("{}: {fname} through {vname}: what surrounds the colors did not come back as written (or a color went missing): {text}", c.name));
+                        return;
+                    }
+                    let expected_positions = match *form {
+                        0 | 10 => (*n).min(3) as usize,
+                        2 => 0,
+                        1 | 7 | 9 => 1,
+                        6 => 3,
+                        _ => 2,
+                    };
+                    if outcomes.len() != expected_positions {
+                        ctx.fail("round-trip:container", &key, format!("{}: {fname} through {vname}: {} colors came back, {expected_positions} were written: {text}", c.name, outcomes.len()));
+                        return;
+                    }
+                    for (i, o) in &outcomes {
+                        let expect: &[f64] = args.vals[*i];
+                        // only the first position may carry a raw hue angle
+                        if *i > 0 {
+                            RAW_HUE.with(|r| r.set(false));
+                        }
+                        if judge_value(ctx, c, &format!("{fname} through {vname}, position {i}"), &key, o, expect) {
+                            return;
+                        }
+                    }
+                    if outcomes.len() > 1 {
+                        ctx.probe("several-colors-in-one-document");
+                    }
+                    if *form == 10 && outcomes.len() > 1 {
+                        ctx.probe("color-followed-by-another-document-on-the-stream");
+                    }
+                    // context independence of the shape: the document is its parts, each as written on its own
+                    if let Some(comp) = composed {
+                        ctx.checked();
+                        if comp != text {
+                            ctx.fail("stable-shape", &key, format!("{}: {fname} through {vname}: the color inside the document is not written as on its own: {text} vs. {comp}", c.name));
+                        } else {
+                            ctx.probe("document-equals-its-parts");
+                        }
+                    }
+                }
+                Ok(cases::ContainerRound::NotExpressible(why)) => {
+                    // nothing here is beyond JSON; RON may refuse shapes of its own accord
+                    if *via != 2 {
+                        ctx.checked();
+                        ctx.fail("serialize-failed", &key, format!("{}: {fname} could not be written through {vname}: {why}", c.name));
+                    } else {
+                        ctx.extra("container-form-not-expressible-in-ron", 1);
+                    }
+                }
+                Err(e) => {
+                    ctx.checked();
+                    ctx.fail("deserialize-failed", &key, format!("{}: {fname} through {vname}: {e}", c.name));
                 }
             }
         }
